@@ -67,21 +67,25 @@ def gen(rng, tier):
     return cases
 
 
-def _view(vals, neighbours):
+def _view(vals, neighbours, stride=1):
+    """interior (possibly strided) view of a larger buffer: 3 words before, 3 after, and every gap word between the
+    view's elements are filled from `neighbours`"""
     import numpy as np
-    big = np.empty(len(vals) + 6, dtype=np.uint64)
+    span = len(vals) * stride
+    big = np.empty(span + 6, dtype=np.uint64)
     for i in range(len(big)):
         big[i] = neighbours[i % len(neighbours)]
-    big[3:3 + len(vals)] = np.array(vals, dtype=np.uint64)
-    return big[3:3 + len(vals)]
+    v = big[3:3 + span:stride]
+    if len(vals):
+        v[:] = np.array(vals, dtype=np.uint64)
+    return v
 
 
 def impl(c):
-    """[result on exact-fit buffers, result on interior views with adversarial neighbours]"""
-    import numpy as np
+    """[result on the default buffers, on interior views with adversarial neighbours, on interior views with other
+    neighbours]: all three must agree (a kernel that reads outside its arguments sees different words)"""
     from harness.props import kernels as KK
     r1 = KK.impl_kernel(c)
-    # second layout: monkeypatch the array builder to produce interior views
     adv = []
     for key in ("l", "r", "a", "ids"):
         if key in c:
@@ -89,18 +93,18 @@ def impl(c):
     if "target" in c:
         adv.append(c["target"])
     adv = adv or [0xDEADBEEF]
+    other = [0, K.ALL, 0x5555555555555555]
     orig = KK._np_arr
-
-    def patched(vals, stride=1, pad=None):
-        if stride != 1:
-            return orig(vals, stride)
-        return _view(vals, adv)
-    KK._np_arr = patched
-    try:
-        r2 = KK.impl_kernel(c)
-    finally:
-        KK._np_arr = orig
-    return [r1, r2]
+    out = [r1]
+    for fill in (adv, other):
+        def patched(vals, stride=1, pad=None, fill=fill):
+            return _view(vals, fill, stride)
+        KK._np_arr = patched
+        try:
+            out.append(KK.impl_kernel(c))
+        finally:
+            KK._np_arr = orig
+    return out
 
 
 model_req = K.model_req
@@ -120,6 +124,9 @@ def equal(c, a, b):
 
 
 def oracle(c, ir, m):
+    # the three memory layouts must give one answer: otherwise the result depends on memory outside the arguments
+    if isinstance(ir, list) and any(x != ir[0] for x in ir[1:]):
+        return False
     if isinstance(m, dict) and "fuel" in m:
         return False
     if isinstance(m, dict) and "fault" in m:
@@ -134,7 +141,7 @@ def nontrivial(c, r):
 
 
 def tally(dist, c, r):
-    c12.tally(dist, c, r if not isinstance(r, list) or len(r) != 2 else r[0])
+    c12.tally(dist, c, r if not isinstance(r, list) or len(r) != 3 else r[0])
 
 
 shrink_candidates = c12.shrink_candidates
